@@ -21,7 +21,8 @@ Inductive case :=
              (mode : Z) (nc : bool) (maxHdr : Z) (wfail : Z) (ops : list op)
              (res : list opres) (cancels : list (Z * Z)) (closed : option Z)
              (trailers : list string) (written : list string) (rem : Z) (left : Z)
-| ConnCase (isServer : bool) (streams : list (string * bool)) (closed : option Z) (stops : list (option Z)).
+| ConnCase (isServer : bool) (streams : list (string * bool)) (closed : option Z) (stops : list (option Z))
+| ReqCase (data : string) (fin : bool) (maxHdr : Z) (closed : option Z) (reset : option Z) (status : option Z).
 
 (** error <-> the harness's (class, argument) pairs *)
 Definition err_code (e : err) : Z * Z :=
@@ -129,7 +130,8 @@ Inductive obs :=
 | FrameObs (res : list fres) (closed : option Z) (left : Z)
 | StreamObs (res : list (list Z * Z * (Z * Z) * bool)) (cancels : list (Z * Z)) (closed : option Z)
             (trailers : list (list Z)) (written : list (list Z)) (rem : Z) (left : Z)
-| ConnObs (closed : option Z) (stops : list (option Z)).
+| ConnObs (closed : option Z) (stops : list (option Z))
+| ReqObs (closed : option Z) (reset : option Z) (status : option Z).
 
 Definition model_obs (c : case) : obs :=
   match c with
@@ -145,6 +147,13 @@ Definition model_obs (c : case) : obs :=
   | ConnCase isServer streams _ _ =>
     let '(c, stops) := conn_run (new_conn isServer) (map (fun p => (hx (fst p), snd p)) streams) in
     ConnObs (c_closed c) stops
+  | ReqCase data fin maxHdr _ _ _ =>
+    (* the harness only sends header blocks that QPACK and requestFromHeaders accept: an
+       accepted block is answered with 200, an oversize one with 431 *)
+    let '(c, o) := request_stream (new_conn true) (hx data) fin maxHdr in
+    ReqObs (c_closed c)
+           (match o with RReset code => Some code | _ => None end)
+           (match o with RAccepted _ => Some 200 | RTooLarge => Some 431 | _ => None end)
   end.
 
 Definition check_case (c : case) : bool :=
@@ -159,5 +168,7 @@ Definition check_case (c : case) : bool :=
     && (rem' =? rem) && (lft' =? lft)
   | ConnCase _ _ closed stops, ConnObs closed' stops' =>
     opt_eqb closed' closed && list_eqb opt_eqb stops' stops
+  | ReqCase _ _ _ closed reset status, ReqObs closed' reset' status' =>
+    opt_eqb closed' closed && opt_eqb reset' reset && opt_eqb status' status
   | _, _ => false
   end.
